@@ -23,9 +23,9 @@ default_validator = validators.base.BaseValidator()
 
 def extract_error_codes(response: AbstractResponse) -> Tuple[int, ...]:
     if isinstance(response, BatchResponse):
-        return (response.error.code,) if response.error else tuple(r.error.code if r.error else 0 for r in response)
+        return (response.error.code,) if response.is_error else tuple(r.error.code if r.is_error else 0 for r in response)
     else:
-        return (response.error.code if response.error else 0,)
+        return (response.error.code if response.is_error else 0,)
 
 
 class Method:
